@@ -471,8 +471,10 @@ PROPS = {
                            "Rodbus.C01.read_bits_payload", "Rodbus.C01.read_regs_payload", "Rodbus.C01.first_exception_reply",
                            "Rodbus.C01.write_echo", "Rodbus.C01.session_replies", "Rodbus.Tables.fc_table_correct",
                            "Rodbus.Tables.exception_roundtrip", "Rodbus.Tables.server_limits_correct",
-                           "Rodbus.C01Stream.stream_replies", "Rodbus.C01Stream.session_chunking_independent"],
-        suites=[dict(gen="srv_tcp", n=(2500, 150000),
+                           "Rodbus.C01Stream.stream_replies", "Rodbus.C01Stream.session_chunking_independent",
+                           "Rodbus.C01W.write_failure_wire", "Rodbus.C01W.write_failure_session", "Rodbus.C01W.write_failure_prefix"],
+        suites=[dict(gen="srv_wfail", n=(300, 30000), exhaustive="failing transport write: every fault position 0..6 of fixed six-request sessions (TCP incl. unknown function and unconfigured unit; RTU incl. a broadcast), frame-by-frame and in one segment"),
+                dict(gen="srv_tcp", n=(2500, 150000),
                      exhaustive="MBAP: every function byte 0..255 x payload lengths {0,1,3,4,5,6} (0..12 thorough) x {configured, unconfigured} unit; "
                                 "quantity x start boundary lattice for the six ranged functions"),
                 dict(gen="srv_rtu", n=(1500, 100000), exhaustive="RTU: quantity x start boundary lattice"), dict(gen="net", n=(6, 200), jobs=16)],
@@ -494,8 +496,9 @@ PROPS = {
         tables=[],
         audit_modules=["RodbusModel.Audit.C02"],
         required_theorems=["Rodbus.C02.session_calls_justified", "Rodbus.C02.framing_error_ends_session", "Rodbus.C02.calls_justified", "Rodbus.C02.write_once", "Rodbus.C02.write_once_broadcast",
-                           "Rodbus.C02.reads_ascending_prefix", "Rodbus.C02.invalid_no_effect", "Rodbus.C02.reads_no_state_change_lookup"],
-        suites=[dict(gen="srv_tcp", n=(2500, 150000)), dict(gen="srv_rtu", n=(1500, 100000)), dict(gen="srv_auth", n=(1500, 100000))],
+                           "Rodbus.C02.reads_ascending_prefix", "Rodbus.C02.invalid_no_effect", "Rodbus.C02.reads_no_state_change_lookup",
+                           "Rodbus.C01W.write_failure_calls_justified", "Rodbus.C01W.write_failure_prefix"],
+        suites=[dict(gen="srv_wfail", n=(300, 30000)), dict(gen="srv_tcp", n=(2500, 150000)), dict(gen="srv_rtu", n=(1500, 100000)), dict(gen="srv_auth", n=(1500, 100000))],
         level_text="Proof: calls_justified (every handler call of handle_frame is justified by a valid, in-limit, permitted request addressed to that "
                    "unit or broadcast, and is either exactly the decoded write or a read inside the requested range), write_once / "
                    "write_once_broadcast (exactly one write call per target with exactly count items (start+i, v_i)), reads_ascending_prefix, "
@@ -583,8 +586,9 @@ PROPS = {
         audit_modules=["RodbusModel.Audit.C07", "RodbusModel.Audit.C07Client"],
         required_theorems=["Rodbus.Client.client_phase_outcome_mbap", "Rodbus.Client.client_phase_outcome_rtu", "Rodbus.Client.client_no_spin_mbap", "Rodbus.Client.client_no_spin_rtu", "Rodbus.Client.client_shutdown_honoured", "Rodbus.C07.session_outcome", "Rodbus.C07.shutdown_honoured", "Rodbus.C07.reply_fits_writer",
                            "Rodbus.C07.range_addresses_fit", "Rodbus.C07.reader_errors_are_protocol_errors",
-                           "Rodbus.no_spurious_eof", "Rodbus.C06.no_spurious_eof", "Rodbus.C06.peek_in_bounds"],
-        suites=[dict(gen="srv_fuzz", n=(3000, 400000)), dict(gen="rdr_fuzz", n=(3000, 400000)),
+                           "Rodbus.no_spurious_eof", "Rodbus.C06.no_spurious_eof", "Rodbus.C06.peek_in_bounds",
+                           "Rodbus.C01W.write_failure_ends_session", "Rodbus.C01W.write_failure_unreached"],
+        suites=[dict(gen="srv_wfail", n=(300, 30000)), dict(gen="srv_fuzz", n=(3000, 400000)), dict(gen="rdr_fuzz", n=(3000, 400000)),
                 dict(gen="cl_fuzz", n=(800, 100000)),
                 dict(gen="srv_tcp", n=(800, 50000)), dict(gen="srv_rtu", n=(800, 50000)), dict(gen="net", n=(6, 200), jobs=16), dict(gen="pty_srv", n=(40, 600), jobs=16)],
         level_text="Proof for the modelled logic: bounds at the arithmetic/indexing sites mirrored from the Rust code (range_addresses_fit, "
